@@ -896,6 +896,11 @@ func filterRemovetags(in *Value, param *Value) (*Value, *Error) {
 
 func filterRjust(in *Value, param *Value) (*Value, *Error) {
 	padding := param.Integer()
+	if padding < 0 {
+		// A negative width would be read by fmt as the '-' flag (pad on the
+		// right) or, if large, produce a %!(BADWIDTH) artefact.
+		padding = 0
+	}
 	if padding > maxCharPadding {
 		return nil, &Error{
 			Sender:    "filter:rjust",
